@@ -578,8 +578,8 @@ pub fn run(args: &Args) -> i32 {
          judged cookie-chained discovery; distinct by (config, op/outcome sequence)",
     );
     let tiny = util::tiny(args);
-    let n = if tiny { 3 } else { args.tier.pick(30_000, 600_000) };
-    let max_ops = if tiny { 14 } else { args.tier.pick(50, 120) };
+    let n = if tiny { 10 } else { args.tier.pick(30_000, 600_000) };
+    let max_ops = if tiny { 40 } else { args.tier.pick(50, 120) };
     let _ = keys();
     vmon::par_cases(&check, n, args.threads, |_, rng| run_case(&check, rng, max_ops));
     check.note("exhaustive", json!(false));
